@@ -464,6 +464,19 @@ pub fn build(c: Ctor, op: &Op) -> Built {
     }
 }
 
+/// Fills the stack region below the caller with a known byte, so that any
+/// byte of a by-value result that its constructor does not write (struct
+/// padding inside the declared size, a conditionally written scratch buffer)
+/// is deterministic and distinguishable instead of "whatever was there".
+#[inline(never)]
+pub fn dirty_stack(pattern: u8) {
+    let mut buf = [0u8; 24 * 1024];
+    for (i, b) in buf.iter_mut().enumerate() {
+        *b = pattern ^ ((i >> 12) as u8 & 1); // not a plain memset the optimiser may elide
+    }
+    std::hint::black_box(&mut buf);
+}
+
 /// Temporarily leaves the allocator scope (harness-side temporaries that are
 /// created in the middle of a library call sequence).
 pub struct ScopeOff(bool);
@@ -1442,19 +1455,34 @@ pub struct GenKnobs {
 }
 
 fn gen_text(rng: &mut Rng, k: &GenKnobs) -> Vec<u8> {
+    // characters whose encodings and scalar values exercise different paths:
+    // 2-, 3- and 4-byte UTF-8, scalar values that are multiples of 256
+    // (U+0100, U+0400, U+3000, U+4E00, U+1F600), combining marks, BOM
+    const WIDE: [&str; 14] =
+        ["é", "ü", "ß", "Ā", "Ѐ", "✓", "ダ", "一", "\u{3000}", "😀", "🚀", "\u{301}", "\u{feff}", "\u{7f}"];
     let len = gen_len(rng, k.max_len);
-    let mut s = Vec::with_capacity(len + 4);
+    let mut s = Vec::with_capacity(len + 8);
     let style = rng.below(8);
     while s.len() < len {
         match style {
             0 => s.push(b'a' + (s.len() % 26) as u8),
-            1 if rng.chance(1, 4) => s.extend_from_slice("é".as_bytes()),
-            2 if rng.chance(1, 6) => s.extend_from_slice("✓".as_bytes()),
+            1 | 2 if rng.chance(1, 4) => s.extend_from_slice(rng.pick(&WIDE).as_bytes()),
+            3 if rng.chance(1, 12) => s.push(0), // interior NUL: still a valid &str
             _ => s.push(rng.range(0x20, 0x7e) as u8),
         }
     }
-    if rng.chance(1, 4) {
-        s.push(0); // caller-supplied terminator: must not be doubled
+    // what the string ends with matters to the terminator rule
+    match rng.below(8) {
+        0 | 1 => s.push(0), // caller-supplied terminator: must not be doubled
+        2 => s.extend_from_slice(rng.pick(&WIDE).as_bytes()),
+        3 if !s.is_empty() => {
+            // NUL somewhere before the end, text after it
+            let at = rng.below(s.len() as u64) as usize;
+            if s[at] < 0x80 {
+                s[at] = 0;
+            }
+        }
+        _ => {}
     }
     s
 }
@@ -1466,7 +1494,18 @@ pub fn gen_len(rng: &mut Rng, max_len: usize) -> usize {
         0 => 0,
         1..=5 => rng.below(18) as usize,
         6..=8 => rng.below(70) as usize,
-        _ => rng.below(max_len as u64 + 1) as usize,
+        _ => {
+            // size thresholds (one byte either side of 2^8, 2^12, 2^16) are
+            // where truncating casts and chunked copies go wrong
+            let thresholds: [usize; 3] = [256, 4096, 65536];
+            let reachable: Vec<usize> = thresholds.iter().copied().filter(|t| t + 1 <= max_len).collect();
+            if !reachable.is_empty() && rng.chance(1, 2) {
+                let t = *rng.pick(&reachable);
+                t - 1 + rng.below(3) as usize
+            } else {
+                rng.below(max_len as u64 + 1) as usize
+            }
+        }
     }
 }
 
@@ -1502,7 +1541,7 @@ pub fn gen_args(c: Ctor, rng: &mut Rng, k: &GenKnobs) -> (Vec<u64>, Vec<Vec<u8>>
         Ctor::BasicMeminfo => (vec![sc(rng, 32), sc(rng, 32)], vec![]),
         Ctor::Bootdev => (vec![sc(rng, 32), sc(rng, 32), sc(rng, 32)], vec![]),
         Ctor::Mmap => {
-            let n = gen_len(rng, k.max_len / 24).min(64);
+            let n = gen_len(rng, k.max_len / 24).min(3000);
             let mut b = Vec::with_capacity(n * 20);
             for _ in 0..n {
                 b.extend_from_slice(&sc(rng, 64).to_le_bytes());
@@ -1529,7 +1568,7 @@ pub fn gen_args(c: Ctor, rng: &mut Rng, k: &GenKnobs) -> (Vec<u64>, Vec<Vec<u8>>
             let kind = rng.below(3);
             let b = match kind {
                 0 => {
-                    let n = gen_len(rng, (k.max_len / 3).min(300));
+                    let n = gen_len(rng, (k.max_len / 3).min(22000));
                     rng.bytes(3 * n)
                 }
                 1 => rng.bytes(6),
@@ -1562,11 +1601,23 @@ pub fn gen_args(c: Ctor, rng: &mut Rng, k: &GenKnobs) -> (Vec<u64>, Vec<Vec<u8>>
             (vec![sc(rng, 8), sc(rng, 8)], vec![rng.bytes(l)])
         }
         Ctor::RsdpV1 => {
-            let oem = if rng.chance(3, 4) { b"OEMIDX".to_vec() } else { rng.bytes(6) };
+            let oem = match rng.below(6) {
+                0 => b"BOCHS ".to_vec(),
+                1 => b"      ".to_vec(),
+                2 => b" A B  ".to_vec(),
+                3 => rng.bytes(6),
+                _ => b"OEMIDX".to_vec(),
+            };
             (vec![sc(rng, 8), sc(rng, 8), sc(rng, 32)], vec![oem])
         }
         Ctor::RsdpV2 => {
-            let oem = if rng.chance(3, 4) { b"OEMIDY".to_vec() } else { rng.bytes(6) };
+            let oem = match rng.below(6) {
+                0 => b"BOCHS ".to_vec(),
+                1 => b"      ".to_vec(),
+                2 => b"AB\0\0\0\0".to_vec(),
+                3 => rng.bytes(6),
+                _ => b"OEMIDY".to_vec(),
+            };
             let length = if rng.chance(1, 2) { 36 } else { sc(rng, 32) };
             (vec![sc(rng, 8), sc(rng, 8), sc(rng, 32), length, sc(rng, 64), sc(rng, 8)], vec![oem])
         }
@@ -1587,14 +1638,14 @@ pub fn gen_args(c: Ctor, rng: &mut Rng, k: &GenKnobs) -> (Vec<u64>, Vec<Vec<u8>>
             };
             let dv = if rng.chance(2, 3) { 1 } else { sc(rng, 32) };
             let l = if (40..=64).contains(&ds) && rng.chance(3, 4) {
-                ds as usize * (gen_len(rng, k.max_len / 48).min(40))
+                ds as usize * (gen_len(rng, k.max_len / 48).min(1700))
             } else {
                 gen_len(rng, k.max_len)
             };
             (vec![ds, dv], vec![rng.bytes(l)])
         }
         Ctor::EfiMmapFromDescs => {
-            let n = gen_len(rng, k.max_len / 40).min(40);
+            let n = gen_len(rng, k.max_len / 40).min(1700);
             (vec![], vec![rng.bytes(n * 40)])
         }
         Ctor::EfiBsNew | Ctor::EfiBsDefault | Ctor::EndDefault | Ctor::HEndNew | Ctor::HEndDefault => (vec![], vec![]),
@@ -1612,7 +1663,7 @@ pub fn gen_args(c: Ctor, rng: &mut Rng, k: &GenKnobs) -> (Vec<u64>, Vec<Vec<u8>>
             (vec![typ], vec![rng.bytes(l)])
         }
         Ctor::HInfoReq => {
-            let n = gen_len(rng, k.max_len / 4).min(200);
+            let n = gen_len(rng, k.max_len / 4).min(17000);
             let mut b = Vec::with_capacity(4 * n);
             for _ in 0..n {
                 let v = if rng.chance(2, 3) { rng.range(0, 22) } else { sc(rng, 32) };
